@@ -41,6 +41,8 @@ func runC02(w *World, r *Report) {
 	ruleKind(w, r)
 	rulePairBool(w, r)
 	ruleOpResolve(w, r)
+	// flattening can raise an operand count: the limits check must see the optimised tree
+	ruleOrder(w, r)
 }
 
 // runC10Core re-runs the folding rules of C10.
